@@ -17,6 +17,7 @@ CONSTANTS Keys,      \* normalised keys (strings naming them)
           MaxSteps,
           ViewHist,
           EmitAll,   \* TRUE: emit a line per transition (exploration); FALSE: only when the history is complete (simulation)
+          LenEnabled,\* FALSE for key families whose borders cannot be enumerated here (keys near maxinteger)
           Travs      \* traversal policies allowed: subset of {"plain","update","rawupdate","clear","clearothers","updateothers"}
 
 VARIABLES map,   \* [Keys -> {"nil","v1","v2"}]
@@ -81,7 +82,7 @@ Trav(pol) ==
 Next ==
   \/ \E s \in Spell, v \in {"v1", "nil"} : Set(s, v) \/ RawSet(s, v)
   \/ \E s \in Spell : Get(s)
-  \/ LenOp
+  \/ (LenEnabled /\ LenOp)
   \/ \E p \in Travs : Trav(p)
 
 Spec == Init /\ [][Next]_vars
